@@ -26,7 +26,7 @@ ASSUMPTIONS = ['adjacency: add / remove one record for MST, AIM, Adaptive Grid a
                'environment adapters: autodp / hdmm stand-ins, assignable sparse .T (DESIGN.md 0.2)',
                'configurations in which the mechanism raises before producing output are counted and not charged']
 PLAN = {
-    'quick': dict(cases=48, budget_s=100, case_timeout=900, min_cases=16),
+    'quick': dict(cases=48, budget_s=200, case_timeout=900, min_cases=10),
     'thorough': dict(cases=600, budget_s=1200, case_timeout=1800, min_cases=100),
 }
 
